@@ -39,9 +39,13 @@ theorem coll_mapGet_eq (kvs : List (V × V)) (f : List Nat) :
     Gen.Coll.mapGet kvs (.str f) .null = select .C (.map kvs) f := by
   rw [coll_mapGet_spec]; simp [validKey, select, handled, dictGetitem]
 
-theorem coll_resultCaught_eq : Gen.Coll.resultCaught = resultCaught := by decide
+/-- `result()` catches exactly the classes the model's `result` catches (`catching` only asks for
+membership: compared as sets, the order inside the `except (…)` tuple is immaterial) -/
+theorem coll_resultCaught_eq (e : Exc) : e ∈ Gen.Coll.resultCaught ↔ e ∈ resultCaught := by
+  cases e <;> decide
 
-theorem coll_index_handlers : Gen.Coll.handlers_member_index = indexHandlers := by decide
+theorem coll_index_handlers (e : Exc) : e ∈ Gen.Coll.handlers_member_index ↔ e ∈ indexHandlers := by
+  cases e <;> decide
 
 theorem coll_member_dot_handlers : Exc.keyError ∈ Gen.Coll.handlers_member_dot := by decide
 
@@ -63,7 +67,7 @@ theorem coll_map_facts :
     Gen.Coll.mapGetitemBadKeyRaises = .typeError ∧ Gen.Coll.evaluateRaisesErrorValue = true := by decide
 
 theorem coll_valid_keys :
-    Gen.Coll.validKeyTypes = ["IntType", "UintType", "BoolType", "StringType", "str"] := by decide
+    Gen.Coll.validKeyTypes = ["BoolType", "IntType", "StringType", "UintType", "str"] := by decide
 
 /-- which primitive each string function delegates to, and in which argument order -/
 theorem coll_string_fns :
@@ -79,11 +83,11 @@ theorem coll_matches :
 /-- the five macro branches of `Evaluator.member_dot_arg` as `macroM .I` models them -/
 theorem coll_macro_branches :
     Gen.Coll.macroBranches =
-      [("map", "build_macro_eval", [.celEval], "", false, false, false),
-       ("filter", "build_macro_eval", [.celEval], "", false, false, true),
-       ("all", "build_ss_macro_eval", [], "logical_and", true, true, false),
+      [("all", "build_ss_macro_eval", [], "logical_and", true, true, false),
        ("exists", "build_ss_macro_eval", [], "logical_or", false, true, false),
-       ("exists_one", "build_macro_eval", [.celEval], "", false, false, true)] ∧
+       ("exists_one", "build_macro_eval", [.celEval], "", false, false, true),
+       ("filter", "build_macro_eval", [.celEval], "", false, false, true),
+       ("map", "build_macro_eval", [.celEval], "", false, false, false)] ∧
     Gen.Coll.ssBodyCatchesCELEvalError = true := ⟨rfl, rfl⟩
 
 /-- `macro_map/filter/exists_one/exists/all` as `macroM .C` models them -/
@@ -100,9 +104,9 @@ theorem coll_macro_names :
 /-- the operators the model gives a meaning to are bound to the functions it models -/
 theorem coll_base_functions :
     Gen.Coll.baseFunctions =
-      [("_+_", "operator.add"), ("_==_", "bool_eq"), ("_in_", "operator_in"), ("_[_]", "operator.getitem"),
-       ("size", "function_size"), ("contains", "function_contains"), ("endsWith", "function_endsWith"),
-       ("startsWith", "function_startsWith"), ("matches", "function_matches"),
+      [("_+_", "operator.add"), ("_==_", "bool_eq"), ("_[_]", "operator.getitem"), ("_in_", "operator_in"),
+       ("contains", "function_contains"), ("endsWith", "function_endsWith"), ("matches", "function_matches"),
+       ("size", "function_size"), ("startsWith", "function_startsWith"),
        ("bool_eq", "boolean(operator.eq)")] := by decide
 
 end Cel.Bridge
